@@ -7,8 +7,9 @@ macro_rules! impl_bytes_utils_for_allocator {
     const SIZE: usize = core::mem::size_of::<$ty>();
 
     let allocated = $this.allocated();
-    if $offset + SIZE > allocated {
-      return Err(Error::OutOfBounds { $offset, allocated });
+    match $offset.checked_add(SIZE) {
+      Some(end) if end <= allocated => {}
+      _ => return Err(Error::OutOfBounds { $offset, allocated }),
     }
 
     let buf = unsafe {
